@@ -502,6 +502,53 @@ def _retain_idiom(fb, p, rets, flavour):
     return False, "retain predicate is not `!used.contains(&i)` with i counting the calls: %s / %s" % (show(r)[:80], [(show(w[1]), show(w[3])) for w in wr][:2])
 
 
+def _kept_by_loop(allp, body, unk, flavour):
+    fn, L, H = loops.loop_unknown(unk)
+    src_rx = r"\.flat_ops\(" if flavour == "flat" else r"\.ops\(\.bin_ops\("
+    kept = dropped = False
+    for p in allp:
+        for t in loops.trips(p, body["path"]):
+            if t.header != H:
+                continue
+            if not t.general:
+                init = t.pre.get(L)
+                if init is not None and "⊤(loop:" not in show(init) and loops.seq_parts(init) != []:
+                    return False, "the new list does not start empty"
+                for k, v in t.pre.items():
+                    sv = show(v)
+                    if "Iterator::enumerate(" in sv and "⊤(loop:%s" % fn not in sv:
+                        parts = loops.seq_parts(v)
+                        if not (len(parts) == 1 and parts[0][0] == "src" and parts[0][2] == "fwd" and re.search(src_rx, parts[0][1]) and re.match(r"^(\.\w+\()+[\w⊤:()]+\)+$", parts[0][1]) and "Iterator::" not in parts[0][1]):
+                            return False, "the loop does not enumerate the operator list in order: %s" % parts
+                continue
+            if t.post is None or L not in t.pre or L not in t.post:
+                continue
+            its = [k for k, v in t.pre.items() if isinstance(v, Unknown) and any(show(d[1]) == "discr(std::iter::Iterator::next(%s))" % show(v) for d in t.decisions)]
+            if len(its) != 1:
+                return False, "iterator of the loop not identified"
+            item = ".0(as:Some(std::iter::Iterator::next(%s)))" % show(t.pre[its[0]])
+            used = None
+            for d in t.decisions:
+                c = rel.canon(d[1])
+                if isinstance(c, App) and c.fn.endswith("::contains") and len(c.args) == 2 and rel.cstr(c.args[1]) == rel.cstr_of(".0(%s)" % item) if hasattr(rel, "cstr_of") else (isinstance(c, App) and c.fn.endswith("::contains") and len(c.args) == 2 and show(c.args[1]).replace(" ", "") == (".0(%s)" % item).replace(" ", "")):
+                    used = bool(d[2])
+            post = show(t.post[L])
+            pre = show(t.pre[L])
+            if used is None:
+                return False, "a step does not test `used.contains(index)`"
+            if used:
+                if post != pre:
+                    return False, "an operator recorded as used is kept"
+                dropped = True
+            else:
+                if not re.match(r"^mut:.*::push\(%s, (std::clone::Clone::clone\()?\.1\(%s\)\)?\)$" % (re.escape(pre), re.escape(item)), post):
+                    return False, "an operator not recorded as used is not kept as it is: %s" % post[:100]
+                kept = True
+    if kept and dropped:
+        return True, ""
+    return False, "keep / drop steps not both found"
+
+
 def check_after(chk, fb, body, flavour, info):
     """R02.5: exactly the used operators are dropped afterwards."""
     name = "FlatEx::compile" if flavour == "flat" else "DeepEx::compile"
@@ -534,6 +581,20 @@ def check_after(chk, fb, body, flavour, info):
             break
         v = vals[0]
         s = show(v)
+        if loops.loop_unknown(v) is not None:
+            # the kept operators collected by an explicit loop: `for (i, op) in ops.iter().enumerate() { if !used.contains(&i) { kept.push(op.clone()) } }`
+            okl, whyl = _kept_by_loop(info["allp"], body, v, flavour)
+            if okl:
+                n += 1
+                continue
+            good, why = False, "new operator list is built by a loop that is not `keep exactly the operators not recorded as used`: %s" % whyl
+            break
+        if loops.seq_parts(v) == [] and isinstance(v, App):
+            # an explicit loop over an operator list that turned out to be empty leaves the new list empty
+            src_rx_ = r"\.flat_ops\(" if flavour == "flat" else r"\.ops\(\.bin_ops\("
+            if any(d[2] == "None" and re.match(r"^discr\(std::iter::Iterator::next\(.*Iterator::enumerate\(.*%s" % src_rx_, show(d[1])) and "⊤(loop:" not in show(d[1]).split("enumerate(")[0] for d in p.decisions):
+                n += 1
+                continue
         m = isinstance(v, App) and v.fn == "std::iter::Iterator::collect"
         chain = v.args[0] if m else None
         if not (m and isinstance(chain, App) and chain.fn == "std::iter::Iterator::map" and isinstance(chain.args[0], App) and chain.args[0].fn == "std::iter::Iterator::filter"):
